@@ -32,7 +32,9 @@ theorem chainOf_eq (e : Env) (p : Nat) : chainOf e p = ancestors e (e.blocks.len
 
 /-- **what is asked of the block tree** — two static, decidable conditions, both maintained by the C01 framework
 (`EnvOK.lower`, `EnvOK.blockId`): the parent of a registered block is strictly lower than the block, and a registered block
-is known under its own id. Nothing is asked of the state, of the transactions, or of the destinations of walks. -/
+is known under its own id. Nothing is asked of the state, of the transactions, or of the destinations of walks. (The first
+condition is what makes the tree acyclic, so that the fuel of `ancestors` reaches the root and two chains have ONE lowest
+common block; in the implementation the height of a block is the height of its parent plus one.) -/
 def TreeOK (e : Env) : Prop :=
   (∀ bi ∈ e.blocks.map (·.1), ∀ q, (e.block bi).pre = some q → (e.block q).height < (e.block bi).height) ∧
   (∀ bi ∈ e.blocks.map (·.1), (e.block bi).id = bi)
